@@ -55,12 +55,12 @@ Definition ores_agree {A B} (f : A -> B -> bool) (m : result A) (o : ores B) : b
 
 (* Rounding of one coordinate.  When x * 10^d is exact in binary64 (<= 20 significant bits) np.around is the exact
    decimal rounding, ties to even, and is compared as such.  For a full-mantissa x the product is rounded before rint:
-   within the noise of a tie (1e-3 of a unit, plus 1e-15 relative to the scaled value) the neighbouring decimal is also
+   within the noise of a tie (1e-3 of a unit, plus 2^-52 relative to the scaled value: twice the rounding error of the product) the neighbouring decimal is also
    possible, and only the property's own bound (half a unit of the last kept decimal) is demanded there. *)
 Definition near_tie (d : nat) (x : Q) : bool :=
   let y := x * inject_Z (10 ^ Z.of_nat d) in
   let f := y - inject_Z (Qfloor y) in
-  Qle_bool (Qabs (f - (1 # 2))) ((1 # 1000) + tol15 * Qabs y).
+  Qle_bool (Qabs (f - (1 # 2))) ((1 # 1000) + (1 # 4503599627370496) * Qabs y).
 Definition within_half_unit (d : nat) (x : Q) (o : fl) : bool :=
   match o with
   | Fin q => Qle_bool (Qabs (q - x)) ((1 # 2) / inject_Z (10 ^ Z.of_nat d) + tol15 * Qmax' (Qabs x) (Qabs q))
@@ -102,6 +102,8 @@ Inductive case :=
 | CDocPlane (doc : json Q) (accepted : bool) (deser : ores oplane)
 (* "definitions" of schema.json as extracted on this run *)
 | CSchema (defs : list (string * schema))
+(* a document the rational model cannot represent (NaN / Infinity tokens): recorded, not compared *)
+| CSkip
 | CFail.
 
 Definition check_case (c : case) : bool :=
@@ -124,5 +126,6 @@ Definition check_case (c : case) : bool :=
   | CDocPlane doc accepted deser =>
       Bool.eqb (plane_validate doc) accepted && ores_agree plane_agree (plane_deserialize QOps doc) deser
   | CSchema defs => defs_eqb defs polliwog_defs
+  | CSkip => true
   | CFail => false
   end.
